@@ -132,9 +132,11 @@ def part_requests(ctx: Ctx, out: Outcome, rng: random.Random) -> dict:
     for inv in fres.violated:
         out.violations.append(Violation("C14:design:Requests:" + inv, "Requests.tla violates " + inv, {"kind": "design"}))
     fam.sort(key=lambda d: (sorted(d["carriers"]), d["declared"], d["workers"], d["provider_scope"]))
-    full = [d for d in fam if len(d["carriers"]) == 7]
-    k = 22 if ctx.quick else 300
-    chosen = full[:] + common.sample(rng, [d for d in fam if 1 <= len(d["carriers"]) < 7], k)
+    full = [d for d in fam if len(d["carriers"]) >= 6 and "key" not in d["carriers"]]
+    keyed = [d for d in fam if "key" in d["carriers"]]
+    k = 18 if ctx.quick else 300
+    chosen = common.sample(rng, full, 10 if ctx.quick else 60) + common.sample(rng, keyed, 8 if ctx.quick else 80) \
+        + common.sample(rng, [d for d in fam if 1 <= len(d["carriers"]) < 6 and "key" not in d["carriers"]], k)
     descs = []
     for i, d in enumerate(chosen):
         d = dict(d)
@@ -147,7 +149,8 @@ def part_requests(ctx: Ctx, out: Outcome, rng: random.Random) -> dict:
             raise RuntimeError("requests driver failed: %s on %s" % (r["machinery"], r["desc"]))
     obs = ctx.path("req_obs.json")
     tlc.write_json(obs, [{"hdr": {k2: r["hdr"][k2] for k2 in ("carriers", "user", "applies")},
-                          "lines": [{"op": ln["op"], "ph": ln["ph"], "vals": ln["vals"]} for ln in r["lines"]]} for r in runs])
+                          "lines": [{"op": ln["op"], "ph": ln["ph"], "vals": ln["vals"], "probe": ln["probe"], "parent": ln["parent"]}
+                                    for ln in r["lines"]]} for r in runs])
     j = tlc.require_ok(tlc.run_tlc("RequestsTrace", "RequestsTrace.cfg", env={"OBS_FILE": obs}, workers=1, timeout=1800, heap="8g"),
                        "RequestsTrace")
     ended = {p[1] for p in j.prints if isinstance(p, list) and p and p[0] == "END"}
@@ -162,6 +165,10 @@ def part_requests(ctx: Ctx, out: Outcome, rng: random.Random) -> dict:
             nrej += 1
             t, line, c, ph, op = p[1], p[2], p[3], p[4], p[5]
             r = runs[t - 1]
+            if c == 0:
+                out.violations.append(Violation("C14:requests:probe-budget", "more credential probes than one stripped + one invalid per probed request; config %s" % r["desc"],
+                                                {"kind": "requests", "desc": r["desc"], "carrier": "key", "phase": 0, "op": 0}))
+                continue
             carrier = CARRIERS[c - 1]
             others = sorted(x for x in r["desc"]["carriers"] if x != carrier)
             # the failing class: which carrier lost its value, in which phase kind, and which OTHER user layers were configured
@@ -176,6 +183,7 @@ def part_requests(ctx: Ctx, out: Outcome, rng: random.Random) -> dict:
     nreq = sum(len(r["lines"]) for r in runs)
     linked = sum(1 for r in runs for ln in r["lines"] if ln["ph"] == 5 and ln["op"] == 2)
     return {"family": len(fam), "configs_run": len(runs), "requests_judged": nreq, "link_derived_requests": linked,
+            "probe_requests": sum(1 for r in runs for ln in r["lines"] if ln["probe"]),
             "rejected_lines": nrej, "family_states": fres.distinct, "family_generated": fres.generated,
             "by_phase": {PHASE[p]: sum(1 for r in runs for ln in r["lines"] if ln["ph"] == p) for p in (2, 3, 4, 5)},
             "provider_fetches": [r["hdr"]["issued"] for r in runs if "prov" in r["desc"]["carriers"]][:20],
@@ -201,7 +209,7 @@ def run(ctx: Ctx) -> Outcome:
         "harness/compat.py shim enables OpenAPI link routing on the installed Hypothesis so that link-derived requests exist",
         "the fake timer is advanced only by the model's Tick action in forced schedules; free-running runs use time.monotonic in integer ms",
         "no precedence AMONG user layers is asserted (the property orders user > generated only)",
-        "ignored_auth-style probes are not enabled in these runs (default check set), so the probe exception is not exercised",
+        "probes are recognised as the child cases a check records without a transition (ScenarioRecorder), matched to the server log by the test-case id header",
     ]
     return out
 
@@ -228,8 +236,10 @@ def selftest(ctx: Ctx) -> bool:
     tlc.write_json(obs, [good, bad])
     j = tlc.require_ok(tlc.run_tlc("AuthCacheJudge", "AuthCacheJudge.cfg", env={"OBS_FILE": obs}, workers=1), "selftest")
     ok1 = ["ACCEPT", 1] in j.prints and ["DISAGREE", 2, "FetchOnce"] in j.prints
-    hdr = {"carriers": [True] * 7, "user": ["a"] * 7, "applies": [[True] * 7] * 3}
-    tlc.write_json(obs, [{"hdr": hdr, "lines": [{"op": 1, "ph": 4, "vals": ["a"] * 7}, {"op": 2, "ph": 4, "vals": ["a"] * 6 + ["x"]}]}])
+    hdr = {"carriers": [True] * 8, "user": ["a"] * 8, "applies": [[True] * 8] * 3}
+    tlc.write_json(obs, [{"hdr": hdr, "lines": [{"op": 1, "ph": 4, "vals": ["a"] * 8, "probe": False, "parent": 0},
+                                                {"op": 2, "ph": 4, "vals": ["a"] * 6 + ["x", "a"], "probe": False, "parent": 0},
+                                                {"op": 2, "ph": 4, "vals": ["a"] * 7 + [""], "probe": True, "parent": 1}]}])
     j = tlc.require_ok(tlc.run_tlc("RequestsTrace", "RequestsTrace.cfg", env={"OBS_FILE": obs}, workers=1), "selftest")
     ok2 = ["REJECT", 1, 2, 7, 4, 2] in j.prints and ["REJECT", 1, 1, 1, 4, 1] not in j.prints
     return ok1 and ok2
